@@ -13,12 +13,12 @@ Import ListNotations.
 Local Open Scope string_scope.
 
 (* a section of the skeleton seen as a step of the model: it must hold exactly the lock "mux" and touch only
-   the location "m"; its shape is (lock mode, may write) *)
-Definition sec_shape (s : section) : option (mode * bool) :=
+   the location "m"; its shape is (lock mode, may read m, may write m) *)
+Definition sec_shape (s : section) : option (mode * bool * bool) :=
   match s with
   | Sec [(l, md)] accs =>
       if String.eqb l "mux" && forallb (fun a => String.eqb (loc a) "m") accs
-      then Some (md, existsb wr accs) else None
+      then Some (md, existsb (fun a => negb (wr a)) accs, existsb wr accs) else None
   | _ => None
   end.
 
